@@ -1700,11 +1700,14 @@ Section ForLoop.
         | Some (c', e) => s' <- body c' e (fst r) ;; for_do f nxt body s' c'
         end
     end.
-  (* impl_ipairs_next / impl_mipairs_next: k = k + 1; if k >= #a + (1 when one-indexed) then false else a[k] / &a[k] *)
+  (* impl_ipairs_next / impl_mipairs_next: k = k + 1; if k >= #a + (1 when one-indexed) then false else a[k] / &a[k].
+     The step, the comparison, the one-indexing offsets and the initial controls are scraped from iterators.nelua
+     (Gen.v: IP_STEP, IP_STOP_GE, IP_OFF_ONE / IP_OFF_ZERO, IP_INIT_ONE / IP_INIT_ZERO). *)
+  Definition ip_stop (bound k' : Z) : bool := if (IP_STOP_GE =? 1)%Z then (bound <=? k')%Z else (bound <? k')%Z.
   Definition ip_next (one : nat) (len : St -> nat) (at_ : nat -> St -> res (St * E)) (s : St) (k : Z)
     : res (St * option (Z * E)) :=
-    let k' := (k + 1)%Z in
-    if (Z.of_nat (len s + one) <=? k')%Z then Ok (s, None)
+    let k' := (k + IP_STEP)%Z in
+    if ip_stop (Z.of_nat (len s + one)) k' then Ok (s, None)
     else p <- at_ (Z.to_nat k') s ;; Ok (fst p, Some (k', snd p)).
 End ForLoop.
 
@@ -1717,20 +1720,20 @@ Section Iterators.
   Definition vec_ref_read (r : nat) (v : vec T) : res T := sget r (vdata T v).
   Definition vec_ref_write (r : nat) (x : T) (v : vec T) : res (vec T) :=
     d <- sset r x (vdata T v) ;; Ok (mkvec T d (vsize T v)).
-  Definition vec_ipairs_next := ip_next (vec T) T 0 (vec_len T) vec_get.          (* also next(v, k) and pairs(v) *)
-  Definition vec_mipairs_next := ip_next (vec T) nat 0 (vec_len T) vec_ref.       (* also mnext(v, k) and mpairs(v) *)
-  Definition vec_ipairs (v : vec T) := for_in (vec T) Z T (S (vec_len T v)) vec_ipairs_next v (-1)%Z.
+  Definition vec_ipairs_next := ip_next (vec T) T (Z.to_nat IP_OFF_ZERO) (vec_len T) vec_get.          (* also next(v, k) and pairs(v) *)
+  Definition vec_mipairs_next := ip_next (vec T) nat (Z.to_nat IP_OFF_ZERO) (vec_len T) vec_ref.       (* also mnext(v, k) and mpairs(v) *)
+  Definition vec_ipairs (v : vec T) := for_in (vec T) Z T (S (vec_len T v)) vec_ipairs_next v IP_INIT_ZERO.
   (* for i, x in mipairs(v) do $x = f($x) end *)
   Definition vec_mipairs_map (f : T -> T) (v : vec T) : res (vec T) :=
     for_do (vec T) Z nat (S (vec_len T v)) vec_mipairs_next
-           (fun _ r v => x <- vec_ref_read r v ;; vec_ref_write r (f x) v) v (-1)%Z.
+           (fun _ r v => x <- vec_ref_read r v ;; vec_ref_write r (f x) v) v IP_INIT_ZERO.
   (* ---- sequence: one-indexed, initial control 0; the access is sequence.__atindex *)
-  Definition seq_ipairs_next := ip_next (seq T) T 1 (seq_len T) (seq_get T dflt).
-  Definition seq_pairs (s : seq T) := for_in (seq T) Z T (S (seq_len T s)) seq_ipairs_next s 0%Z.
+  Definition seq_ipairs_next := ip_next (seq T) T (Z.to_nat IP_OFF_ONE) (seq_len T) (seq_get T dflt).
+  Definition seq_pairs (s : seq T) := for_in (seq T) Z T (S (seq_len T s)) seq_ipairs_next s IP_INIT_ONE.
   (* ---- span: the storage is fixed, the container is the fat pointer *)
   Definition span_ipairs_next (mem : list T) :=
-    ip_next spanw T 0 sp_size (fun i w => x <- spw_at T i mem w ;; Ok (w, x)).
-  Definition span_ipairs (mem : list T) (w : spanw) := for_in spanw Z T (S (sp_size w)) (span_ipairs_next mem) w (-1)%Z.
+    ip_next spanw T (Z.to_nat IP_OFF_ZERO) sp_size (fun i w => x <- spw_at T i mem w ;; Ok (w, x)).
+  Definition span_ipairs (mem : list T) (w : spanw) := for_in spanw Z T (S (sp_size w)) (span_ipairs_next mem) w IP_INIT_ZERO.
   (* ---- list: listT.__next / __mnext; the control is the node pointer (nilptr first); a reference is the node *)
   Definition dl_next_node (node : option nat) (d : dlist T) : res (option nat) :=
     match node with
